@@ -780,7 +780,7 @@ func run(c Case) kit.Result {
 var spec = kit.Spec[Case]{
 	Prop: "C25", Name: "main",
 	Rule:  "1-3 library-made records (all key types, shared or different keys, some expired, some padded to the size limit); record 0 undergoes 0-3 mutations (set/clear/flip/duplicate/prepend each protobuf field from another record, another field, a literal or a flipped copy; unknown fields; wrong wire type; field order reversal; padding to the size limit; truncation; raw byte flips; re-signing with another key with/without the domain prefix and with/without the embedded key; data of a differently-valued record); the bytes are validated against every key of the case with Validate / ValidateWithName / Validator.Validate (with and without key book); every acceptance must satisfy: effective data was signed with that key, signatureV2 verifies, unexpired, <= 10 KiB, accessors equal the signed inputs, legacy fields agree when value or signatureV1 is present, embedded key matches the name; honest records must pass iff unexpired and within the limit; non-trivial = mutated and still parseable",
-	Quick: 2000, Thorough: 40000,
+	Quick: 2000, Thorough: 15000,
 	Gen: gen, Run: run,
 	Sample: func(c Case) any {
 		type brief struct {
